@@ -36,6 +36,19 @@ def install(env):
             return recorder_method(it, o, name)
         return base_getattr(it, o, name)
     env.obj_getattr = obj_getattr
+    base_enter, base_exit = env.cm_enter, env.cm_exit
+
+    def cm_enter(it, cm):
+        if isinstance(cm, Recorder):
+            return it.call(it.getattr(cm, '__enter__'), [], {})
+        return base_enter(it, cm)
+
+    def cm_exit(it, cm, exc):
+        if isinstance(cm, Recorder):
+            it.call(it.getattr(cm, '__exit__'), [None, None, None] if exc is None else [exc.cls, exc, None], {})
+            return False
+        return base_exit(it, cm, exc)
+    env.cm_enter, env.cm_exit = cm_enter, cm_exit
 
 
 def recorder_method(it, rec, name):
